@@ -310,8 +310,11 @@ def check_optimisation(c, spec, folder, lines, pending):
                     c.fail("state_at(%r, %s) is not the signed state_at(%r)" % (n, t, base), case,
                            {"sign": s, "base": vb, "alias": vn})
     # declared nominal of the base must be what every name sees (positive magnitude)
+    # (when an alias declares a nominal of its own, pymoca's merge decides -- outside the property)
+    byname = {v["name"]: v for v in spec["variables"]}
     for v in spec["variables"]:
-        if v["name"] in spec["classes"] and "nominal" in v["attrs"]:
+        if v["name"] in spec["classes"] and "nominal" in v["attrs"] and not any(
+                "nominal" in byname[n]["attrs"] for n, _ in spec["classes"][v["name"]][1:]):
             if float(p.variable_nominal(v["name"])) != abs(v["attrs"]["nominal"]):
                 c.fail("declared nominal of %r not honoured" % v["name"], case,
                        {"declared": v["attrs"]["nominal"], "got": float(p.variable_nominal(v["name"]))})
